@@ -8,6 +8,30 @@ claimed = {
    text="Zero-annotation safety sweep plus supporting functional contracts: for 65 functions reachable from peer-supplied bytes (daemon and client side) every index, slice, make, integer division, non-comma-ok type assertion, explicit panic and process-exit site is turned into a verification condition over unconstrained peer input (every value read from the connection is arbitrary in its type, every read may fail) and discharged by an SMT solver; the facts that cross function boundaries (validated checksum header ranges, option-table typing, multiplex buffer size) are contracts proved on the real code. A violated obligation comes with the solver's model replayed against the real function where a replay template exists.",
    note="Trusted: govc itself, go/ssa, SMT solvers; externals.spec entries used (listed per run in the evidence); nil-pointer dereference and nil-map writes are not swept; the sender's delta-search functions (hashSearch, matched, simpleSendToken, ptr, sendFile, mapFile) are not yet under the sweep (listed as deferred); option-table typing rests on a trusted contract backed by an exhaustive table enumeration; os.Exit paths of the shared option parser are recorded as open known findings.",
    design="4.8"),
+ "C03": dict(
+   text="Typestate proof on the real receiveData: with ghost accumulators for 'bytes written to writer w' (updated only by the Write/MultiWriter/binary.Write contracts) the loop invariant 'the hash has seen seed ++ exactly what the temp file has seen' is proved inductive, and at the one call of CloseAtomicallyReplace the path condition is proved to imply (a) localSum = MD4(seed ++ bytes written to the temp file), (b) localSum was compared equal to remoteSum, (c) remoteSum was read from the connection; plus 'err == nil implies exactly one rename' for receiveData and recvFile1. All inputs, all token streams, no bound.",
+   note="Trusted: hash.Hash/md4, io.MultiWriter, bytes.Equal, renameio contracts in externals.spec; error propagation above recvFile1 (RecvFiles, Do, errgroup) is by inspection only.",
+   design="4.3"),
+ "C04": dict(
+   text="Effect contract over every receiver function: no call that writes content directly at a final path (create/truncate/open-for-write/rename/link/symlink by name, ambient path writes) is reachable - data goes through renameio's pending file, symlinks through SymlinkRoot; and receiveData is proved to clean up the pending file it created on every return path (deferred Cleanup). The crash-point quantifier is discharged by the invariant holding at every program point.",
+   note="Trusted: rename(2) atomicity, renameio; SIGKILL leaves temp files (allowed); goroutine orphaning after an error is a scheduling matter (C18).",
+   design="4.4"),
+ "C05": dict(
+   text="Effect contract, all file lists: for every function of package receiver each file-system effect (open, create temp, rename, mkdir, symlink, chmod, chtimes, chown, unlink, mknod/mkfifo/socket, delete walk) is proved to go through the *os.Root stored in rt.DestRoot at entry (or a file/fd/procfd path derived from it); ClientRun and the daemon's handleConnReceiver are proved to open that root on the destination path (or a rooted sub-directory) and nothing else. No path string is ever inspected: confinement comes from which API receives it.",
+   note="Trusted: os.Root's own traversal resistance (Go runtime; a sub-agent observed that Go 1.25.0 OpenRoot(\"esc/\") with a trailing slash follows an escaping symlink - that is inside this trusted base, see DESIGN.md), the effect table in externals.spec, /proc/self/fd semantics.",
+   design="4.5"),
+ "C06": dict(
+   text="Effect contract: every file-system read in package sender goes through a FileSource (whose two implementations are proved to touch only their own root / fs.FS) or through os.OpenRoot on the local directory the function was given, and the daemon's handleConn/handleConnSender are proved to pass the module's path. Request path strings never reach an ambient-path API.",
+   note="Trusted: os.Root / Root.FS() confinement, fs.WalkDir, user-supplied fs.FS; HandleDaemonConn's module lookup is not under contract.",
+   design="4.6"),
+ "C07": dict(
+   text="Effect contract: handleConnReceiver, handleConn: every file-system write effect is proved to be under the path condition module==nil (command mode) or module.Writable; handleConnSender and the whole sender package have no write effect at all; validateModule: FS-backed modules cannot be writable.",
+   note="Trusted: effect table; that HandleDaemonConn passes a copy of the configured module (getModule) is by inspection.",
+   design="4.7"),
+ "C10": dict(
+   text="Effect contract: for every receiver function, DryRun (at entry) implies no file-system write effect on any path; callees that write unconditionally carry the precondition !DryRun which is proved at each call site; the sender transmits file data (calls sendFile/hashSearch) only when dry_run is 0. Three unguarded mutation sites were found as failing obligations, replayed on the real code and fixed.",
+   note="Trusted: effect table. Creating the destination directory itself (outside the statement: 'inside an existing destination') is not an obligation.",
+   design="4.10"),
 }
 not_yet = "check not built yet in this session (work in progress; see DESIGN.md for the planned contract)"
 na = {"C18": "liveness under all schedules / deadlock freedom / data-race freedom are whole-history and concurrency properties; per-function pre/postconditions over sequential SSA cannot express them and govc has no model of goroutines or channels (DESIGN.md §4.18)"}
